@@ -61,19 +61,21 @@ theorem site_combine_two_states_debug_assert {c : LaDfa} (hc : CompiledOk c) (ch
   obtain ⟨a2, ch2, h2, _⟩ := MT.combineEquiv_total (a1.list.length + 1) ch1 st1.wf (Nat.lt_succ_self _)
   exact ⟨a1, ch1, h1, a2, ch2, h2⟩
 
-/-- Site `AdjacencyList::combine_equivalent_states` (`self.productions.get(s).unwrap()`): in every
-    round — i.e. for every adjacency list reachable from the first phase — each state of the list
-    has a production entry; the candidate groups are computed (`equivGroups ≠ none`). -/
+/-- Site `AdjacencyList::combine_equivalent_states` (`self.productions.get(s).unwrap()`): under
+    the well-formedness invariant every state of the list has a production entry, so the candidate
+    groups are computed (`equivGroups ≠ none`); and the whole loop after the first phase — every
+    round, whatever group the hash map yields first (`ch'`) — completes: the model's
+    `combineEquiv` returns `none` as soon as ANY round hits the failing `unwrap` (or an assertion
+    of `combine_two_states`), and it does not return `none`. -/
 theorem site_combine_equivalent_states_unwrap {c : LaDfa} (hc : CompiledOk c) {ch ch1 : List Nat} {a1 : Adj}
     (h1 : (adjOfCompiled c).mergeFinals ch = some (a1, ch1)) :
-    a1.equivGroups ≠ none ∧
-    ∀ (fuel : Nat) (a2 : Adj) (ch' ch2 : List Nat), Adj.combineEquiv fuel a1 ch' = some (a2, ch2) → a2.equivGroups ≠ none := by
+    (∀ a : Adj, AdjWF a → a.equivGroups ≠ none) ∧
+    ∀ (fuel : Nat) (ch' : List Nat), a1.list.length < fuel → ∃ r, Adj.combineEquiv fuel a1 ch' = some r := by
   have st1 := mergeFinals_step (adjOfCompiled_wf hc) h1
-  refine ⟨by rw [MT.equivGroups_total st1.wf]; simp, ?_⟩
-  intro fuel a2 ch' ch2 h2
-  have st2 := combineEquiv_step fuel st1.wf h2
-  rw [MT.equivGroups_total st2.wf]
-  simp
+  refine ⟨fun a hwf => by rw [MT.equivGroups_total hwf]; simp, ?_⟩
+  intro fuel ch' hlt
+  obtain ⟨a2, ch2, h2, _⟩ := MT.combineEquiv_total fuel ch' st1.wf hlt
+  exact ⟨(a2, ch2), h2⟩
 
 /-- Site `AdjacencyList::renumber_states` (`panic!("No free state number found!")`): whenever the
     enumeration finds a state whose number differs from its position, a free number below the
